@@ -49,3 +49,28 @@ Definition src_or (x : option string) (y : string) : string :=
   | Some f => if String.eqb f "" then y else f
   | None => y
   end.
+
+(* ---- scripts of calls (orchestration code) ---- *)
+(* a for loop whose body may return: the first iteration that returns decides *)
+Fixpoint src_first_some {A B : Type} (f : A -> option B) (l : list A) : option B :=
+  match l with
+  | [] => None
+  | a :: l' => match f a with Some b => Some b | None => src_first_some f l' end
+  end.
+
+(* symbolic values: what an argument of a recorded call is made of *)
+Section SVal.
+  Variable image : Type.
+  Inductive sval :=
+  | SZ (z : Z) | SOptZ (o : option Z) | SB (b : bool)
+  | SImg (i : image)                              (* the loop variable over self.coll.images() *)
+  | SAttr (a : string) (v : sval)                 (* v.a *)
+  | SCallM (m : string) (v : sval)                (* v.m() *)
+  | SNew (cls : string) (kw : list (string * sval))   (* cls(k=v, ...) *)
+  | SClosure (name : string) (captured : list sval)   (* an inner def closing over a list *)
+  | SIdx (k : nat) (v : sval).                    (* the k-th component of a tuple-valued v *)
+  Inductive sevent := SCall (target : string) (pos : list sval) (kw : list (string * sval)).
+End SVal.
+Arguments SZ {image}. Arguments SOptZ {image}. Arguments SB {image}. Arguments SImg {image}.
+Arguments SAttr {image}. Arguments SCallM {image}. Arguments SNew {image}. Arguments SClosure {image}.
+Arguments SIdx {image}. Arguments SCall {image}.
